@@ -486,10 +486,19 @@ listener that suspends lets other tasks run — `add()` / `download()` / `remove
 the loop looks at its next entry. An entry whose identity is listed when the loop reaches it is dropped
 silently (`add()` returns the listed transfer: no event, no suspension). -/
 
-/-- the entries in the order `shelve` hands them out: identities in the order of `order`, the rest behind -/
+/-- the first entry with identity `id`, and the others -/
+def pull (id : Ident) : List Transfer → Option (Transfer × List Transfer)
+  | [] => none
+  | t :: l => if ident t = id then some (t, l) else (pull id l).map fun r => (r.1, t :: r.2)
+
+/-- the entries in the order `shelve` hands them out: `order` names the identity of the 1st, 2nd, … entry (an
+identity stored under two keys is named twice); entries not named come last -/
 def readOrder : List Ident → List Transfer → List Transfer
   | [], l => l
-  | id :: rest, l => l.filter (fun t => ident t = id) ++ readOrder rest (l.filter (fun t => ident t ≠ id))
+  | id :: rest, l =>
+    match pull id l with
+    | some (t, r) => t :: readOrder rest r
+    | none => readOrder rest l
 
 /-- the loop of `read_cache` from its current position up to its next suspension (a listener of the
 `TransferAddedEvent` of the entry it has just registered) or its end -/
